@@ -56,7 +56,7 @@ def run(ctx):
         ctx.case(src, nontrivial=real != "syntax" or kind in ("mutation", "token-soup"), sample={"kind": kind, "source": src[:300], "real": real[:200], "model": ans2[:200]})
         ctx.count("kind:" + kind)
         ctx.count("outcome:" + real.split(" ")[0].split(":")[0])
-        if ans == "outside":
+        if ans == "outside" or ans2 == "outside":
             ctx.count("outside_model_domain")
         elif real != ans2:
             ctx.disagree("parse:" + kind, {"source": src}, real[:600], ans2[:600])
